@@ -22,25 +22,29 @@ ASSUME = [
 
 def run(ctx):
     q = ctx.quick
-    r = vlib.tlc(ctx, "TcpConn", "MC_TcpConn_C02.cfg", workers="auto", timeout=1800)
+    r = vlib.tlc(ctx, "TcpConn", "MC_TcpConn_C02.cfg" if q else "MC_TcpConn_C02Thorough.cfg", workers="auto", timeout=1800)
     ctx.add_tlc(r, "exhaustive relay: mechanism => C02 (and C15, C18 invariants)")
     if not r.ok:
         raise vlib.Inconclusive("model finding in TcpConn.tla / MC_TcpConn_C02.cfg: %s" % r.violated)
-    r = vlib.tlc(ctx, "TcpConn", "MC_TcpConn_C02Live.cfg", workers="auto", timeout=1800)
-    ctx.add_tlc(r, "liveness under weak fairness: every accepted connection ends, everything sent is delivered")
-    if not r.ok:
-        raise vlib.Inconclusive("liveness model finding (MC_TcpConn_C02Live.cfg): %s" % r.violated)
+    for cfg, what in (("MC_TcpConn_C02Live.cfg", "liveness under weak fairness: every accepted connection ends, everything sent is delivered"),
+                      ("MC_TcpConn_C02Indep.cfg", "liveness with only the proxy fair: a half-close and the data before it reach the peer "
+                                                  "whatever the other direction does")):
+        r = vlib.tlc(ctx, "TcpConn", cfg, workers="auto", timeout=1800)
+        ctx.add_tlc(r, what)
+        if not r.ok:
+            raise vlib.Inconclusive("liveness model finding (%s): %s" % (cfg, r.violated))
 
     rng = random.Random(ctx.seed)
-    behs = tc.gen(ctx, "Gen_TcpConn_C02.cfg", 3000 if q else 20000, seed=ctx.seed)
+    behs = tc.gen(ctx, "Gen_TcpConn_C02.cfg", 6000 if q else 60000, seed=ctx.seed)
     relay = [b for b in behs if tc.features(b)["dial"]]
-    pick = tc.select(relay, 150 if q else 1500, lambda f: (min(f["trecv"], 3), min(f["crecv"], 3)), rng)
+    pick = tc.select(relay, 300 if q else 5000, lambda f: (min(f["trecv"], 3), min(f["crecv"], 3)), rng)
     pick += tc.select([b for b in behs if not tc.features(b)["dial"]], 10 if q else 40, lambda f: f["ntok"], rng)
-    if len(pick) < (100 if q else 600):
+    if len(pick) < (200 if q else 900):
         raise vlib.Inconclusive("only %d behaviours generated" % len(pick))
     cases, brows, _, hung = tc.run_family(ctx, "C02_", pick, label="c02-relay", timeout_ms=5000, par=8 if q else 12)
     if hung:
         raise vlib.Inconclusive("handlers still running after the script ended (see notes): %s" % ctx.notes[-1])
+    tc.mech_pass(ctx, cases, pick, label="c02-relay")
     ntv = 0
     for b in pick:
         f = tc.features(b)
